@@ -2,7 +2,7 @@
 From Coq Require Import List Bool Arith ZArith Lia.
 Require Import HT Ext BodyTheoryCore GenPrelude TheoryPrelude FromTheory Leaf_theory.
 Require BodyTheoryFull.
-Require Import Leaf_dynamic.
+Require Import Leaf_dynamic TheoryAtomsProofs.
 (* Frozen choice: a program P extended with choice atoms X (the Tseitin atoms) and negated constraints C (the clauses)
    has T as equilibrium model iff T satisfies P, violates no constraint, and no smaller H that AGREES WITH T ON X
    satisfies P: the auxiliary atoms never take part in minimisation. *)
@@ -30,6 +30,13 @@ Proof.
   intros A D h s T I G W. split; [exact (F.exists_full A D boolean_clauses_spec tel_clauses_spec make_equal_spec (reduce_eqs_hold A) h s I G W T)|].
   intros v Hc He. exact (F.unique_full A D (reduce_eqs_hold A) h s I G W T v Hc He).
 Qed.
+(* ... and the ground theory atoms themselves are determined by the trace: two assignments that violate no constraint and respect the ties of the
+   theory atoms agree on every theory atom - a body formula has a definite truth value in every answer set *)
+Theorem C13_theory_atoms_are_determined : forall (A : Type) (D : forall a b : A, {a = b} + {a <> b}) (h : nat) (s : F.st A) (ts : list (tie A)),
+  F.Inv A D h nil s -> F.Wf A D s -> TInv A D s ts ->
+  forall (T : F.trace A) (v tv v' tv' : nat -> bool), F.ok_cls A T v s -> F.ok_ext A D v s -> ok_ties A T v tv ts -> F.ok_cls A T v' s -> F.ok_ext A D v' s -> ok_ties A T v' tv' ts ->
+  forall x, In x ts -> tv (t_atom A x) = tv' (t_atom A x).
+Proof. exact theory_atoms_determined. Qed.
 (* tie to the source: the clause groups REGENERATED from theory/body.py are definitional - whatever values the argument
    literals have, exactly one value of the node's own literal violates no constraint (so a formula literal is a choice atom
    fully determined by its constraints: it can neither destroy nor duplicate an answer set) *)
@@ -47,3 +54,4 @@ Print Assumptions C13_unique_extension.
 Print Assumptions C13_temporal_clauses_definitional.
 Print Assumptions C13_boolean_clauses_definitional.
 Print Assumptions C13_unique_extension_full.
+Print Assumptions C13_theory_atoms_are_determined.
